@@ -384,7 +384,7 @@ def _():
     return _refill(qtn.TN3D_rand(2, 2, 2, 2, seed=3, dtype="float64"), "Q.tn3d")
 
 
-THOROUGH_RECEIVERS = {"P.pepo", "Q.peps3d", "Q.tn3d"}
+THOROUGH_RECEIVERS = set()  # (every receiver is cheap enough for the quick tier)
 
 # --------------------------------------------------------------------------- #
 #                                  operators                                  #
@@ -1141,7 +1141,6 @@ D("q:partial_trace_exact", "G.vec", lambda x, H: (((0, 1),), {}), "01", "value")
 
 group("U")
 ALLNETS = "N.loop N.multi N.hyper N.struct N.tree N.left N.braket N.op G.vec G.op M.mps3 M.mps4 M.mpo3 M.submpo P.peps P.pepo P.tn2d P.norm Q.peps3d Q.tn3d"
-UQUICK = {"M.mps4", "P.peps", "G.op", "N.braket"}  # receivers that run these in the quick tier too
 
 
 def _o(x, i=0):
@@ -1160,14 +1159,8 @@ def _has_outer(names):
 
 
 def U(name, recvs, args=None, label="", flags="", **kw):
-    """universal entry: thorough for all receivers, quick for UQUICK"""
-    recvs = recvs.split()
-    q = [r for r in recvs if r in UQUICK]
-    t = [r for r in recvs if r not in UQUICK]
-    if q:
-        D(name, q, args, label + "@q", flags, **kw)
-    if t:
-        D(name, t, args, label, flags, thorough_only=True, **kw)
+    """universal entry (both tiers; the tiers differ in the storage variants)"""
+    D(name, recvs.split(), args, label, flags, **kw)
 
 
 WITH_OUTER = _has_outer(ALLNETS)
@@ -1191,15 +1184,23 @@ U("randomize", ALLNETS, lambda x, H: ((), {"seed": 2}), "u-seed", "noperm noorde
 U("to", ALLNETS, lambda x, H: ((), {"dtype": "complex64"}), "u-dtype")
 U("rank_simplify", ALLNETS, lambda x, H: ((), {"output_inds": tuple(x.outer_inds())}), "u", "value", why="simplification; value compared")
 U("full_simplify", ALLNETS, lambda x, H: ((), {"output_inds": tuple(x.outer_inds())}), "u", "value", why="simplification; value compared")
-U("compress_all", ALLNETS.replace("N.hyper", ""), lambda x, H: ((), {"cutoff": 1e-12}), "u", "dense", why=GAUGE_WHY)
-U("gauge_all_simple", ALLNETS.replace("N.hyper", ""), lambda x, H: ((), {"max_iterations": 2}), "u", "dense", why=GAUGE_WHY)
-U("gauge_all_canonize", ALLNETS.replace("N.hyper", ""), lambda x, H: ((), {"max_iterations": 1}), "u", "dense", why=GAUGE_WHY)
-U("canonize_around", ALLNETS.replace("N.hyper", ""), lambda x, H: ((_tg(x),), {}), "u-first-tag", "dense", why=GAUGE_WHY)
+# (N.struct has over-sized bonds by construction - a 2x3 tensor on a size-3
+# bond: how far QR/SVD sweeps shrink them depends legitimately on the sweep
+# order, so the bond-size skeleton is only compared on the other receivers)
+FULLRANK = ALLNETS.replace("N.hyper", "").replace("N.struct", "")
+U("compress_all", FULLRANK, lambda x, H: ((), {"cutoff": 1e-12}), "u", "dense", why=GAUGE_WHY)
+U("gauge_all_simple", FULLRANK, lambda x, H: ((), {"max_iterations": 2}), "u", "dense", why=GAUGE_WHY)
+U("gauge_all_canonize", FULLRANK, lambda x, H: ((), {"max_iterations": 1}), "u", "dense", why=GAUGE_WHY)
+U("canonize_around", FULLRANK, lambda x, H: ((_tg(x),), {}), "u-first-tag", "dense", why=GAUGE_WHY)
+U("compress_all", "N.struct", lambda x, H: ((), {"cutoff": 1e-12}), "u-rankdef", "value", why=GAUGE_WHY + "; over-sized bonds: value only")
+U("gauge_all_canonize", "N.struct", lambda x, H: ((), {"max_iterations": 1}), "u-rankdef", "value", why=GAUGE_WHY + "; over-sized bonds: value only")
+U("gauge_all_simple", "N.struct", lambda x, H: ((), {"max_iterations": 2}), "u-rankdef", "value", why=GAUGE_WHY + "; over-sized bonds: value only")
+U("canonize_around", "N.struct", lambda x, H: ((_tg(x),), {}), "u-rankdef", "value", why=GAUGE_WHY + "; over-sized bonds: value only")
 U("gate_inds", WITH_OUTER, lambda x, H: ((H.arr((x.ind_size(_o(x)),) * 2, "ugi"), [_o(x)]), {"contract": True}), "u-first-contract")
 U("gate_inds", WITH_OUTER, lambda x, H: ((H.arr((x.ind_size(_o(x)),) * 2, "ugi"), [_o(x)]), {"contract": False}), "u-first-lazy")
 U("contract_tags", ALLNETS, lambda x, H: (([_tg(x, 0), _tg(x, 1)],), {}), "u-first-two-tags", "collapses", why="two-tensor receivers contract to one tensor: the in-place spelling keeps a one-tensor network (documented)")
 U("partition", ALLNETS, lambda x, H: (([_tg(x)],), {}), "u-first-tag", "inplace-returns-other")
-U("expand_bond_dimension", "N.loop N.multi N.struct N.tree N.left N.braket N.op G.vec G.op P.tn2d P.norm Q.tn3d", lambda x, H: ((4,), {}), "u-to4")
+U("expand_bond_dimension", "N.loop N.multi N.struct N.tree N.left N.braket N.op G.vec G.op P.tn2d P.norm Q.tn3d", lambda x, H: ((3,), {}), "u-to3")
 U("q:norm", ALLNETS, None, "u")
 U("p:H", ALLNETS, None, "u")
 U("q:make_norm", _has_outer("N.loop N.tree G.vec M.mps4 M.mpo3 P.peps Q.peps3d"), None, "u", "dense", why="bra labels are mangled")
